@@ -770,9 +770,9 @@ func _deploy(data, isUpdate)
     invariant forall k Bytes {store.opt(k)} :: prefix("\x21", k) && !old(store).has(k) ==> !store.has(k)
     invariant forall k Bytes {store.opt(k)} :: prefix("\x21", k) && old(store).has(k) && !isTLDrec(old(store), k) ==> store.opt(k) == old(store).opt(k)
     invariant forall k Bytes {store.opt(k)} :: prefix("\x21", k) && old(store).has(k) && $it.idx(k) >= $it.pos ==> store.opt(k) == old(store).opt(k)
-    invariant forall j Int {$it.key(j)} :: 0 <= j && j < $it.pos && isTLDrec(old(store), $it.key(j)) ==> store.has($it.key(j))
-        && nsAt(store, $it.key(j)).Name == nsAt(old(store), $it.key(j)).Name && nsAt(store, $it.key(j)).Expiration == nsAt(old(store), $it.key(j)).Expiration
-        && nsAt(store, $it.key(j)).Admin == nsAt(old(store), $it.key(j)).Admin && isnil(nsAt(store, $it.key(j)).Owner)
+    invariant forall k Bytes {store.opt(k)} :: prefix("\x21", k) && old(store).has(k) && isTLDrec(old(store), k) && $it.idx(k) < $it.pos ==> store.has(k)
+        && nsAt(store, k).Name == nsAt(old(store), k).Name && nsAt(store, k).Expiration == nsAt(old(store), k).Expiration
+        && nsAt(store, k).Admin == nsAt(old(store), k).Admin && isnil(nsAt(store, k).Owner)
   loop 1
     invariant true
 @*/
